@@ -329,3 +329,31 @@ def parse_stream(rep):
     rep.after = bits[p:]
     rep.payload = b''.join(s.data for s in segs)
     return rep
+
+
+def read_format(matrix):
+    """Lightweight: only size -> version and format information -> (version, level, mask, words)."""
+    size = len(matrix)
+    ver = T.version_of_size(size)
+    if ver is None:
+        return None, None, None, []
+    micro = T.is_micro(ver)
+    c1, c2 = Lo.format_positions(ver)
+    words = []
+    for pos in (c1, c2):
+        if pos is None:
+            continue
+        w = 0
+        for bit, (i, j) in enumerate(pos):
+            w |= (matrix[i][j] & 1) << bit
+        words.append(w)
+    raw = words[0] ^ (T.FORMAT_MASK_MICRO if micro else T.FORMAT_MASK_QR)
+    d5 = raw >> 10
+    if T.bch_format(d5) != raw or len(set(words)) != 1:
+        return ver, None, None, words
+    if micro:
+        sym, level = T.MICRO_NUMBER_SYMBOL[d5 >> 2]
+        if sym != ver:
+            return ver, None, None, words
+        return ver, level, d5 & 3, words
+    return ver, T.QR_BITS_LEVEL[d5 >> 3], d5 & 7, words
